@@ -49,8 +49,8 @@ pub mod address {
     pub fn write_address_port(address: &Address, buf: &mut BytesMut) -> Result<(), io::Error> {
         match address {
             Address::Domain(host, port) => {
-                if host.is_empty() {
-                    panic!("Empty destination address")
+                if host.is_empty() || host.len() > u8::MAX as usize {
+                    return Err(io::Error::new(io::ErrorKind::InvalidInput, format!("invalid host length {}", host.len())));
                 }
                 buf.put_u16(*port);
                 let bytes = host.as_bytes();
